@@ -16,7 +16,7 @@ from harness import _fdiff as F
 PROPERTY = "C02"
 
 II = ("classify", "chained", "lookup", "loops", "comprehension", "gen", "closure", "useclass", "subscripts", "floats",
-      "multiline", "initer", "slices")
+      "multiline", "initer", "slices", "neonly", "cmpnone", "tiny", "displays")
 SS = ("strfuncs",)
 SSS = ("prefixes", "prefixarg")
 def _args(fname, mask, args):
@@ -52,7 +52,7 @@ def CHECK(fname, mask, args):
 
 def h_ii(f: int, mask: int, a: int, b: int) -> bool:
     """
-    pre: 0 <= f < 13 and 0 <= mask < 8 and -3 <= a <= 3 and -3 <= b <= 3
+    pre: 0 <= f < 17 and 0 <= mask < 8 and -3 <= a <= 3 and -3 <= b <= 3
     post: _
     """
     return reach(CHECK(pick(II, f), mask, (a, b)))
@@ -96,6 +96,14 @@ def h_ss(mask: int, s: str, t: str) -> bool:
     post: _
     """
     return reach(CHECK("strfuncs", mask, (s, t)))
+
+
+def h_si(mask: int, s: str, n: int) -> bool:
+    """
+    pre: 0 <= mask < 8 and len(s) <= 2 and 0 <= n <= 2
+    post: _
+    """
+    return reach(CHECK("emptyprefix", mask, (s, n)))
 
 
 def h_sss(f: int, mask: int, s: str, t: str, u: str) -> bool:
@@ -152,6 +160,7 @@ def obligations(tier: str):
         Chx("i_withctx", h_i, timeout=T, fix={"f": 0}, split={"mask": masks(4)}),
         Chx("i_raises", h_i, timeout=T, fix={"f": 1}, split={"mask": masks(5)}),
         Chx("ss", h_ss, timeout=T, split={"mask": masks(6)}, path_timeout=30),
+        Chx("si_emptyprefix", h_si, timeout=T, split={"mask": masks(0) if not q else sorted(set(masks(0)) | {allmasks[1]})}, path_timeout=30),
         Chx("sss_prefixes", h_sss, timeout=T, fix={"f": 0}, split={"mask": masks(7)}, path_timeout=30),
         Chx("sss_prefixarg", h_sss, timeout=T, fix={"f": 1}, split={"mask": masks(8)}, path_timeout=30),
     ]
